@@ -172,3 +172,92 @@ CONTRACTS += [
              raises=[(ValueError, "(self.close_elements if close_elements is None else close_elements) is False and (self.version if version is None else version) >= 200", "must")],
              notes="versions 2xx refuse to omit end tags (serialize override path)", props=["C06"], symbolic_only=True),
 ]
+
+
+# ------------------------------------------------------------------ request_statements: the assembly (sort / group / wrap / message sets)
+# Requests of the five kinds in a given order of kinds, every field symbolic.  The per-kind wrapping is the wrap_stmtrq
+# contracts above and is abstract here: wrap(rq) stands for the wrapper the arm builds for rq.  Proved: the OFX handed
+# to download() has exactly the message sets of the kinds asked for, each holding exactly one wrapper per request of its
+# kinds - none lost, none twice, none in another set - requests of one kind in the order given; the sign-on built from
+# the password is the one sent; nothing else is passed to OFX().
+from contracts.client import install_request_models, calls as _calls
+
+MSGSET_OF = {StmtRq: "BANKMSGSRQV1", StmtEndRq: "BANKMSGSRQV1", CcStmtRq: "CREDITCARDMSGSRQV1", CcStmtEndRq: "CREDITCARDMSGSRQV1", InvStmtRq: "INVSTMTMSGSRQV1"}
+
+
+class RqListArg(Arg):
+    def __init__(self, kinds, name="rqs"):
+        self.kinds = kinds; self.name = name
+
+    def make(self, it):
+        out, asm = [], []
+        for i, k in enumerate(self.kinds):
+            v, a = RqArg(f"rq{i}", k).make(it)
+            out.append(v); asm += a
+        return out, asm
+
+
+def call_assembly(it, fn, a):
+    self, password, rqs = a
+    install_request_models(it)
+
+    def m_wrap(it_, args, kw):
+        nt, group, client = args
+        group = it_.iterate(group)
+        log(it_, "wrap_stmtrq", type(nt), list(group), client)
+        return (getattr(CL, MSGSET_OF[type(nt)]), [Marker("wrapper", of=rq) for rq in group])
+    it.models[CL.wrap_stmtrq] = m_wrap
+    for nm in set(MSGSET_OF.values()):
+        it.models[getattr(CL, nm)] = (lambda nm_: lambda it_, args, kw: (log(it_, nm_, list(args), dict(kw)), Marker(nm_, members=list(args), kw=dict(kw)))[1])(nm)
+    return it.call(OFXClient.request_statements, [self, password] + list(rqs), {"dryrun": True})
+
+
+def assembled_ok(ghost, rqs, client):
+    raise RuntimeError("symbolic only")
+
+
+def _assembled_ok(it, a, kw):
+    ghost, rqs, client = a
+    ofx = [c for c in ghost["calls"] if c[0] == "OFX"]
+    if len(ofx) != 1 or ofx[0][1]:
+        return False
+    kwargs = dict(ofx[0][2])
+    so = kwargs.pop("signonmsgsrqv1", None)
+    if not (isinstance(so, Marker) and so.label == "signon"):
+        return False
+    want = {}
+    for rq in rqs:
+        want.setdefault(MSGSET_OF[type(rq)].lower(), []).append(rq)
+    if set(kwargs) != set(want):
+        return False
+    for name, ms in kwargs.items():
+        if not (isinstance(ms, Marker) and ms.label.lower() == name and not ms.attrs["kw"]):
+            return False
+        got = [w.attrs["of"] for w in ms.attrs["members"] if isinstance(w, Marker) and w.label == "wrapper"]
+        if len(got) != len(ms.attrs["members"]) or len(got) != len(want[name]):
+            return False
+        # each request exactly once (identity), requests of one kind in the order given
+        if sorted(map(id, got)) != sorted(map(id, want[name])):
+            return False
+        for k in set(map(type, got)):
+            if [id(x) for x in got if type(x) is k] != [id(x) for x in want[name] if type(x) is k]:
+                return False
+    # every wrap call was made for this client
+    return all(c[3] is client for c in ghost["calls"] if c[0] == "wrap_stmtrq")
+
+
+assembled_ok._pyvc_model = _assembled_ok
+assembled_ok._pyvc_always = True
+import contracts.spec.client as _spc
+_spc.assembled_ok = assembled_ok
+
+A0 = len(CONTRACTS)
+KIND_PATTERNS = [[], [StmtRq], [InvStmtRq, StmtRq], [StmtRq, CcStmtRq, StmtRq], [StmtEndRq, StmtRq, CcStmtEndRq, CcStmtRq],
+                 [InvStmtRq, CcStmtRq, StmtRq, InvStmtRq, StmtEndRq], [CcStmtRq, CcStmtRq, CcStmtEndRq, StmtEndRq, StmtEndRq, StmtRq]]
+for kinds in KIND_PATTERNS:
+    CONTRACTS.append(Contract("ofxtools.Client:OFXClient.request_statements", args=[ClientArg(), T("password"), RqListArg(kinds)], call=call_assembly,
+                              ensures=[("one-wrapper-per-request-in-its-own-message-set", "spec.client.assembled_ok(ghost, rqs, self)"),
+                                       ("sign-on-from-the-password", "len(spec.client.calls(ghost, 'signon')) == 1 and spec.client.calls(ghost, 'signon')[0][1] is password"),
+                                       ("one-download-of-that-OFX", "len(spec.client.calls(ghost, 'download')) == 1 and len(spec.client.calls(ghost, 'OFX')) == 1")],
+                              notes=f"request kinds in this order: {[k.__name__ for k in kinds]}; all fields symbolic; wrap_stmtrq abstract (its arms have their own contracts)",
+                              props=["C06"], symbolic_only=True))
